@@ -285,5 +285,5 @@ def print_dl_metrics(variants: List[DiagLayer]) -> None:
         # Add row to table
         table.add_row(variant.short_name, variant.variant_type.value, str(len(all_services)),
                       str(len(ddds.data_object_props)),
-                      str(len(getattr(variant, "comparams_refs", []))))
+                      str(len(getattr(variant, "comparam_refs", []))))
     rich_print(table)
